@@ -34,6 +34,7 @@ import (
 	"github.com/benoitkugler/webrender/css/selector"
 	"github.com/benoitkugler/webrender/css/validation"
 	bo "github.com/benoitkugler/webrender/html/boxes"
+	"github.com/benoitkugler/webrender/html/layout"
 	"github.com/benoitkugler/webrender/html/tree"
 	"github.com/benoitkugler/webrender/images"
 	"github.com/benoitkugler/webrender/logger"
@@ -121,6 +122,9 @@ func runTotal(c, s string) (isErr bool) {
 		_ = bo.BuildFormattingStructure(doc.Root, sf, bo.URLResolver{Fetch: doc.UrlFetcher, FetchImage: imgFetcher},
 			doc.BaseUrl, &tc, cs, foot)
 		_ = doc.GetMetadata()
+		// the whole pipeline: the numbers read from the attributes (colspan / rowspan / span, start, size ...)
+		// are USED by the table grid and the layout; a value outside what that code expects crashes there
+		_ = layout.Layout(doc, nil, true, workerFonts())
 		return false
 	case "metadata":
 		// utils.GetHtmlMetadata: <title>, <meta name content> (keywords, dates ...), <link rel=attachment>
@@ -146,6 +150,15 @@ func runTotal(c, s string) (isErr bool) {
 		return false
 	}
 	panic("unknown component " + c)
+}
+
+var fontsOnce text.FontConfiguration
+
+func workerFonts() text.FontConfiguration {
+	if fontsOnce == nil {
+		fontsOnce = render.NewFonts("pango")
+	}
+	return fontsOnce
 }
 
 type fakeImage struct{}
@@ -285,6 +298,14 @@ func runModelled(j job) result {
 		o := render.Guard(func() { v = bo.VerifC07IntegerAttribute(s, j.X) })
 		res.Coq = fmt.Sprintf("CIntAttr %s %s %d %s", vlib.Runes(s), vlib.Z(j.X), ocOf(o, false), vlib.Z(v))
 		res.Obs = fmt.Sprint(v)
+		return fin(res, o, false)
+	case "spans":
+		// the call sites of integerAttribute: j.X = 1: the attribute is absent
+		var c, rw, sp, gsp int
+		present := j.X != 1
+		o := render.Guard(func() { c, rw, sp, gsp = bo.VerifC07TableSpans(s, present) })
+		res.Coq = fmt.Sprintf("CSpans %s %s %d %s %s %s %s", vlib.Runes(s), vlib.Bool(present), ocOf(o, false), vlib.Z(c), vlib.Z(rw), vlib.Z(sp), vlib.Z(gsp))
+		res.Obs = fmt.Sprintf("td.Colspan=%d td.Rowspan=%d col.span()=%d colgroup.span()=%d", c, rw, sp, gsp)
 		return fin(res, o, false)
 	case "par":
 		var x, y string
